@@ -278,7 +278,8 @@ class Gen(object):
         if r < 72 and ctx.in_obj and not ctx.in_f:
             return self.selfish(ctx)
         if r < 76:
-            return '(assert ' + E(ctx, 'bool') + ' || true : ' + E(ctx.but(live=False, pos='dead-branch'), 'str') + '; ' + E(ctx, 'num') + ')'
+            cond = 'true' if self.chance(0.4) else E(ctx, 'bool') + ' || true'
+            return '(assert ' + cond + ' : ' + E(ctx.but(live=False, pos='dead-branch'), 'str') + '; ' + E(ctx, 'num') + ')'
         if r < 80 and ctx.live:
             self.ntrace += 1
             return 'std.trace("t", ' + E(ctx, 'num') + ')'
@@ -714,7 +715,7 @@ class Gen(object):
             key = '["c%d_" + ' % i + E(ctx.but(pos='field-name', near=near), 'num') + ']'
             members.append(('F', key + self.pick([': ', ':: ']) + E(inner.but(pos='field-value'), 'num')))
         if self.chance(0.35):
-            members.append(('A', 'assert ' + E(inner.but(pos='object-assert'), 'bool') + ' || true' +
+            members.append(('A', 'assert ' + ('true' if self.chance(0.4) else E(inner.but(pos='object-assert'), 'bool') + ' || true') +
                             (' : ' + E(inner.but(pos='dead-branch', live=False), 'str') if self.chance(0.5) else '')))
         # locals / asserts / fields may come in any order: object locals are visible everywhere
         # in the object; only repeated-name groups must keep their relative order
